@@ -1,6 +1,8 @@
 """C20 - Statistics histories stay bounded, aligned and sane (statscompiler.py)."""
 from pyvc.spec import *
 
+GROUP = 'statsmodel'   # contracts of one group use each other's contracts at call sites (pyvc/hooks.py contract_for_call)
+
 
 @contract('statscompiler:trunc_depth', props=['C20'])
 class TruncDepth:
